@@ -22,6 +22,9 @@ type fleet struct {
 
 var fleetKey *vlib.Key
 
+// fleetPermissions: default rule list of the fleets (everything readable).
+var fleetPermissions = []string{"!^/nonexistent-a/.*", "!^/nonexistent-b/[[:digit:]]+\\.key$", "readfiles:!^/nonexistent-c/.*", "^/.*", "!^/nonexistent-d/.*"}
+
 func clientKey() *vlib.Key {
 	mu.Lock()
 	defer mu.Unlock()
@@ -39,6 +42,17 @@ func clientKey() *vlib.Key {
 func startFleet(r *vlib.Run, name string, n int, serverCfg map[string]interface{}, env []string, logLevel string) (*fleet, error) {
 	f := &fleet{r: r, Key: clientKey(), User: "tester"}
 	f.Home, f.KeyFile = r.ClientHome(name, f.Key)
+	// Unless the caller configures permissions itself, every fleet runs with a
+	// rule list as an operator writes it: several rules, the one that grants
+	// access not first (a list evaluated only partly denies everything).
+	if _, ok := serverCfg["Permissions"]; !ok {
+		withPerm := map[string]interface{}{}
+		for k, v := range serverCfg {
+			withPerm[k] = v
+		}
+		withPerm["Permissions"] = map[string]interface{}{"Default": fleetPermissions}
+		serverCfg = withPerm
+	}
 	for i := 0; i < n; i++ {
 		spec := &vlib.ServerSpec{
 			Name:     fmt.Sprintf("%s-h%d", name, i+1),
